@@ -251,7 +251,7 @@ def pipeline(ctx, pid, extra_classes=()):
                         concrete=True, replay=replay_obj(h, line), key=k)
     # the real Run loop driven over its channels (select glue; scheduler decides loopback order): monitors only
     if not ctx.replay:
-        rc, out, trace = core.harness_pkg(ctx, "processor", "^TestVerifProcRun$", timeout=3000)
+        rc, out, trace = core.harness_pkg(ctx, "processor", "^TestVerifProcRun$", timeout=3000, env={"VERIF_PID": pid})
         runs = [r for r in core.read_jsonl(trace) if r.get("k") == "run"]
         if rc != 0 or not runs:
             ctx.problem("machinery", "go harness processor (Run loop)", out[-1200:])
